@@ -462,7 +462,14 @@ def run(ctx):
                 "impl_trace": [impl[-1]["submitted"], impl[-1]["rlog"], impl[-1]["final"]]})
     ctx.sample({"serial_case": scases[-1], "impl": simpl[-1]})
 
-    # real process pool smoke (not part of the proof): positional results
+    # the three executor wrappers around _generic_pmap (what the scripted
+    # executor of the correspondence stands for)
+    wrap_ok, wrap_msg = wrappers_obligation()
+    ctx.add_obligation("wrappers: parallel_map / mpi_pmap wait for every in-flight task at "
+                       "shutdown, loky_pmap may kill them, results are extracted as value-or-"
+                       "exception, arguments reach _generic_pmap in order", wrap_ok)
+    # real process pool (not part of the proof): positional results, and the
+    # property itself on maps that are ended early with tasks in flight
     if True:
         import qutip.solver.parallel as par
         res = par.parallel_map(_sq, list(range(9)), map_kw={"num_cpus": 3})
@@ -471,6 +478,12 @@ def run(ctx):
                           "parallel_map result list is not positional",
                           {"got": res})
         ctx.count_case("real-pool-smoke")
+        found = real_pool_oracle(ctx)
+        if not wrap_ok and not found:
+            ctx.violation("wrappers:parallel.py", wrap_msg[:60],
+                          "an executor wrapper of parallel.py is no longer the modelled one, so the "
+                          "scripted executor of the correspondence no longer stands for it: %s" % wrap_msg,
+                          {"detail": wrap_msg}, found_input=False)
     ctx.cov["explanation"] = (
         "Theorems (Props/C14.v) hold for every schedule of the model; the model is "
         "tied to parallel.py by exact trace equality on generated schedules "
@@ -479,6 +492,161 @@ def run(ctx):
 
 def _sq(x):
     return x * x
+
+
+# ------------------------------------------------ executor wrappers (source)
+WRAPPERS = {
+    "parallel_map": {
+        "shutdown_executor": ["executor.shutdown()"],
+        "extract_result": ["exception = future.exception()",
+                           "if exception is not None:\n    return (None, exception)",
+                           "return (future.result(), None)"]},
+    "mpi_pmap": {
+        "shutdown_executor": ["executor.shutdown()"],
+        "extract_result": ["exception = future.exception()",
+                           "if exception is not None:\n    return (None, exception)",
+                           "return (future.result(), None)"]},
+    "loky_pmap": {
+        "shutdown_executor": ["kill_workers = len(active_tasks) > 0",
+                              "executor.shutdown(kill_workers=kill_workers)"],
+        "extract_result": ["exception = future.exception()",
+                           "if isinstance(exception, ShutdownExecutorError):\n    return (None, None)",
+                           "if exception is not None:\n    return (None, exception)",
+                           "return (future.result(), None)"]},
+}
+
+
+def wrappers_obligation():
+    """Fail-closed reading of the nested shutdown_executor / extract_result of the
+    three executor wrappers and of their call of _generic_pmap."""
+    import ast
+    src = open(os.path.join(vlib.REPO, "qutip/solver/parallel.py")).read()
+    tree = ast.parse(src)
+    fns = {n.name: n for n in tree.body if isinstance(n, ast.FunctionDef)}
+    for name, want in WRAPPERS.items():
+        if name not in fns:
+            return False, "%s not found" % name
+        nested = {n.name: n for n in fns[name].body if isinstance(n, ast.FunctionDef)}
+        for inner, stmts in want.items():
+            if inner not in nested:
+                return False, "%s.%s not found" % (name, inner)
+            body = [b for b in nested[inner].body
+                    if not (isinstance(b, ast.Expr) and isinstance(b.value, ast.Constant))]
+            got = [ast.unparse(b) for b in body]
+            if got != stmts:
+                return False, "%s.%s changed: %r" % (name, inner, got)
+        ret = [n for n in fns[name].body if isinstance(n, ast.Return)]
+        if len(ret) != 1 or not isinstance(ret[0].value, ast.Call) or \
+                ast.unparse(ret[0].value.func) != "_generic_pmap":
+            return False, "%s does not end in a single call of _generic_pmap" % name
+        args = [ast.unparse(a) for a in ret[0].value.args]
+        if args[:5] != ["task", "values", "task_args", "task_kwargs", "reduce_func"] or \
+                args[8:] != ["progress_bar", "progress_bar_kwargs", "setup_executor",
+                             "extract_result", "shutdown_executor"] or ret[0].value.keywords:
+            return False, "%s passes other arguments to _generic_pmap: %r" % (name, args)
+    return True, ""
+
+
+# --------------------------------------------------- real process-pool oracle
+def _rp_task(k, d, plan):
+    """Task run in a real worker: leaves start / end markers, then returns or raises."""
+    import time as _t
+    delay, kind, val = plan[k]
+    open(os.path.join(d, "start_%d" % k), "w").close()
+    _t.sleep(delay)
+    with open(os.path.join(d, "end_%d" % k), "w") as f:
+        f.write(repr(_t.time()))
+    if kind == "err":
+        raise ValueError(k)
+    return (k, val)
+
+
+def real_pool_oracle(ctx):
+    """parallel_map on a real ProcessPoolExecutor, ended early (reducer signal, time
+    limit, fail-fast error) while tasks are in flight.  Whatever the scheduling, when
+    the map returns or raises every task that STARTED must be accounted for: a value
+    reached the reducer / result list exactly once, an error reached the caller, and
+    nothing changes after the return."""
+    import shutil
+    import tempfile
+    import time as _t
+    import qutip.solver.parallel as par
+    scen = [
+        # name, plan {k: (delay, kind, value)}, stop_on (task whose result stops), fail_fast, timeout
+        ("stop-then-late-error", {0: (0.0, "val", 5), 1: (0.5, "err", 0), 2: (0.5, "val", 7),
+                                  3: (0.1, "val", 1), 4: (0.1, "val", 2), 5: (0.1, "val", 3)}, 0, False, None),
+        ("stop-then-late-error-failfast", {0: (0.0, "val", 5), 1: (0.5, "err", 0), 2: (0.5, "val", 7),
+                                           3: (0.1, "val", 1), 4: (0.1, "val", 2), 5: (0.1, "val", 3)}, 0, True, None),
+        ("stop-then-late-values", {0: (0.0, "val", 5), 1: (0.5, "val", 6), 2: (0.5, "val", 7),
+                                   3: (0.1, "val", 1), 4: (0.1, "val", 2), 5: (0.1, "val", 3)}, 0, False, None),
+        ("timeout-with-tasks-in-flight", {k: (0.6, "val", k) for k in range(6)}, None, False, 0.2),
+        ("failfast-error-with-value-in-flight", {0: (0.0, "err", 0), 1: (0.5, "val", 6), 2: (0.5, "val", 7),
+                                                 3: (0.1, "val", 1), 4: (0.1, "val", 2), 5: (0.1, "val", 3)},
+         None, True, None),
+    ]
+    found = False
+    for use_reducer in (True, False):
+        for name, plan, stop_on, ff, timeout in scen:
+            if not use_reducer and stop_on is not None:
+                continue
+            d = tempfile.mkdtemp(prefix="c14_rp_")
+            rlog = []
+
+            def reducer(res, rlog=rlog, stop_on=stop_on):
+                rlog.append(res)
+                return 0 if (stop_on is not None and res[0] == stop_on) else None
+            mk = {"num_cpus": 2, "fail_fast": ff}
+            if timeout is not None:
+                mk["timeout"] = timeout
+            outcome, errs, results = "return", {}, None
+            try:
+                results = par.parallel_map(_rp_task, list(range(len(plan))), task_args=(d, plan),
+                                           reduce_func=reducer if use_reducer else None, map_kw=mk)
+            except par.MapExceptions as e:
+                outcome, errs, results = "mapexc", {k: v.args[0] for k, v in e.errors.items()}, e.results
+            except ValueError as e:
+                outcome, errs = "raise", {e.args[0]: e.args[0]}
+            t_ret = _t.time()
+            snap_r = list(rlog)
+            snap_res = None if results is None else list(results)
+            _t.sleep(1.2)          # any late callback would have run by now
+            started = sorted(int(f[6:]) for f in os.listdir(d) if f.startswith("start_"))
+            ended = {}
+            for f in os.listdir(d):
+                if f.startswith("end_"):
+                    ended[int(f[4:])] = float(open(os.path.join(d, f)).read())
+            shutil.rmtree(d, ignore_errors=True)
+            bad = []
+            if list(rlog) != snap_r:
+                bad.append("the reducer was still called after the map had returned: %r then %r"
+                           % (snap_r, list(rlog)))
+            if results is not None and snap_res != list(results):
+                bad.append("the result list kept changing after the map had returned")
+            for k in started:
+                kind = plan[k][1]
+                if k not in ended or ended[k] > t_ret + 0.05:
+                    bad.append("task %d was still running when the map returned" % k)
+                    continue
+                if kind == "err" and k not in errs:
+                    bad.append("the error of task %d, which ran, did not reach the caller "
+                               "(outcome %s, errors %r)" % (k, outcome, sorted(errs)))
+                if kind == "val":
+                    if use_reducer and [r[0] for r in snap_r].count(k) != 1:
+                        bad.append("result of task %d, which ran, reached the reducer %d times"
+                                   % (k, [r[0] for r in snap_r].count(k)))
+                    if not use_reducer and snap_res is not None and snap_res[k] != (k, plan[k][2]):
+                        bad.append("results[%d] = %r although the task ran" % (k, snap_res[k]))
+            ctx.count_case(("real-pool", name, use_reducer), nontrivial=True)
+            if bad:
+                found = True
+                ctx.violation("parallel.parallel_map:real-pool", bad[0].split(":")[0][:60],
+                              "real ProcessPoolExecutor run '%s' (%s): %s" % (
+                                  name, "reducer" if use_reducer else "result list", bad[0]),
+                              {"scenario": name, "plan": {str(k): list(v) for k, v in plan.items()},
+                               "reducer": use_reducer, "fail_fast": ff, "timeout": timeout,
+                               "outcome": outcome, "errors": {str(k): v for k, v in errs.items()},
+                               "started": started, "problems": bad})
+    return found
 
 
 def replay(ctx, payload):
